@@ -11,7 +11,7 @@ import collections
 
 class Fn:
     __slots__ = ("id", "file", "lo", "hi", "kind", "vis", "name", "parent", "self_ty", "trait",
-                 "trait_default", "nargs", "locals", "dbg", "blocks", "_cfg", "_names", "ret", "params")
+                 "trait_default", "nargs", "locals", "dbg", "blocks", "_cfg", "_names", "ret", "params", "prom")
 
     def __init__(self, d):
         self.id = d["id"]
@@ -27,6 +27,7 @@ class Fn:
         self.trait_default = d.get("trait_default")
         self.ret = d.get("ret")
         self.params = d.get("params")
+        self.prom = d.get("prom") or []
         self.nargs = d["nargs"]
         self.locals = d["locals"]
         self.dbg = d["dbg"]
